@@ -472,6 +472,8 @@ fn scenario(ctx: &Ctx, out: &mut Outcome, rng: &mut Rng, idx: u64) {
     }
     out.count("queries_run", res.query_results.len() as u64);
     out.count("queries_failed", res.query_results.iter().filter(|q| q.contains("err")).count() as u64);
+    out.count("queries_refused_because_a_chunk_was_being_deleted", res.query_results.iter().filter(|q| q.contains("being garbage collected")).count() as u64);
+    out.count("queries_failed_object_not_found", res.query_results.iter().filter(|q| q.contains("not found")).count() as u64);
     if idx < 3 {
         out.sample(json!({"scenario_index": idx, "plan": plan_json, "data_file_deletes": judged, "retention_removals": retention_removals,
             "queries": res.query_results, "restart_completed_a_cycle": res.restart_done}));
